@@ -16,6 +16,10 @@ type c21Case struct {
 	// Silent: the channel runs at volume 0 with its DAC on (NRx2 = 08; channel 3: output level mute): inaudible,
 	// but the generator must keep stepping at its frequency
 	Silent bool `json:"silent,omitempty"`
+	// Other > 0: after At machine cycles another channel (Other) is set up and triggered; the observed channel's
+	// steps must stay on their grid (the four generators are independent)
+	Other int `json:"other,omitempty"`
+	At    int `json:"at,omitempty"`
 }
 
 func c21Setup(ch, f int, silent ...bool) *machine.M {
@@ -93,6 +97,28 @@ func c21Check(l *explore.Local, _ struct{}, c c21Case) *explore.Fail {
 	prev := pos()
 	maxCycles := (c.Steps + 2) * (period/4 + 1)
 	for n := 1; n <= maxCycles && steps < c.Steps; n++ {
+		if c.Other > 0 && n == c.At {
+			w := m.Map.Write
+			switch c.Other {
+			case 1:
+				w(0xff12, 0xf0)
+				w(0xff13, 0x55)
+				w(0xff14, 0x86)
+			case 2:
+				w(0xff17, 0xf0)
+				w(0xff18, 0x55)
+				w(0xff19, 0x86)
+			case 3:
+				w(0xff1a, 0x80)
+				w(0xff1c, 0x20)
+				w(0xff1d, 0x55)
+				w(0xff1e, 0x86)
+			case 4:
+				w(0xff21, 0xf0)
+				w(0xff22, 0x23)
+				w(0xff23, 0x80)
+			}
+		}
 		m.A.EndMachineCycle()
 		cur := pos()
 		if c.Ch == 4 {
@@ -332,7 +358,7 @@ func init() {
 			c.R.Rule = "waveform positions are read (hook) after every machine cycle: for channels 1-3 and every enumerated 11-bit frequency f the cumulative number of duty/wave steps after N machine cycles must equal floor((4N+phi)/P) for one phase phi and P = 4(2048-f) (2(2048-f) for channel 3) over 24 steps; for channel 4 and every NR43 value with s <= 13 the LFSR must step every d(r)*2^s clock cycles over 6 steps; when the frequency changes while a channel runs (channel 1 sweep settings; NRx3/NRx4 rewritten without a trigger at 8 offsets within a period) the steps that follow must again be one per 4(2048-f) clock cycles for the new f (current f read through the hook; the period in flight is not judged); at the fastest clock the output bit sequence over 3 periods must have minimal period 32,767 (15-bit) / 127 (7-bit) and be a rotation of the documented LFSR sequence"
 			c.R.Assumptions = []string{"quick: all f with at most 2 bits set or at most 2 bits clear plus neighbours of 0x400 (the thorough tier enumerates all 2,048)", "the phase of each generator after a trigger is a convention (calibrated)"}
 		}
-		explore.Product(c.R, "step-periods", explore.PartOpt{Bound: "24 waveform steps (6 LFSR steps) per configuration", Domain: "channels 1-3 x f; channel 4 x NR43 with s<=13; the same at volume 0 with the DAC on (5 frequencies; NR43 with s<=6); LFSR sequences"},
+		explore.Product(c.R, "step-periods", explore.PartOpt{Bound: "24 waveform steps (6 LFSR steps) per configuration", Domain: "channels 1-3 x f; channel 4 x NR43 with s<=13; while another channel is triggered at 20 offsets (all 12 ordered pairs); the same at volume 0 with the DAC on (5 frequencies; NR43 with s<=6); LFSR sequences"},
 			func(yield func(c21Case) bool) {
 				for ch := 1; ch <= 3; ch++ {
 					for f := 0; f < 2048; f++ {
@@ -361,6 +387,23 @@ func init() {
 					}
 					if !yield(c21Case{Ch: 4, F: v, Steps: 6}) {
 						return
+					}
+				}
+				// another channel is triggered while the observed one runs: every pair, 20 offsets across a period
+				for ch := 1; ch <= 4; ch++ {
+					f := 0x700
+					if ch == 4 {
+						f = 0x12
+					}
+					for other := 1; other <= 4; other++ {
+						if other == ch {
+							continue
+						}
+						for k := 0; k < 20; k++ {
+							if !yield(c21Case{Ch: ch, F: f, Steps: 12, Other: other, At: 260 + 13*k}) {
+								return
+							}
+						}
 					}
 				}
 				// silent but running: volume 0 with the DAC on
